@@ -133,6 +133,10 @@ def run_op(pf, op, shared=None):
         b = pickle.dumps(pf)
         pf2 = pickle.loads(b)
         return [pf2.to_pandas(**_kw(op)), pf2.count(), canon(pf2.statistics), len(pf2.row_groups)]
+    if k in ("copy", "deepcopy"):    # a handle derived through the copy protocol (__copy__ / __getstate__ + __setstate__)
+        import copy
+        pf2 = copy.copy(pf) if k == "copy" else copy.deepcopy(pf)
+        return [len(pf2.row_groups), pf2.to_pandas(**_kw(op)), pf2.count(), canon(pf2.statistics)]
     if k == "stats_fn":              # the module-level functions that take the handle are part of "statistics" use
         from fastparquet import api
         return canon(api.statistics(pf))
